@@ -117,7 +117,11 @@ type altEnv struct {
 func (c *c03) genProject(r *rng) (Project, bool) {
 	cp := loadCorpus()
 	if r.chance(350) {
-		return *corpusProject(r.n(len(cp.roots))), false
+		for tries := 0; tries < 8; tries++ {
+			if i := r.n(len(cp.roots)); lightFixture(i) {
+				return *corpusProject(i), false
+			}
+		}
 	}
 	cfg := randomCfg(r)
 	multi := false
@@ -190,7 +194,7 @@ func (c *c03) DumpCase(seed uint64, idx int) []Case {
 			}
 			a.YieldSeed = r.next()
 			a.ColdPm = r.n(21)
-			a.StayPm = []int{900, 980, 995}[r.n(3)]
+			a.StayPm = []int{500, 900, 990}[r.n(3)]
 		}
 		if e == 4 && idx%25 == 0 {
 			a = altEnv{Env: refEnv, Fresh: true}
@@ -319,15 +323,29 @@ func freshProcessResult(cs *Case) Result {
 	one := *cs
 	one.Extra = nil
 	b, _ := json.Marshal(one)
-	cmd := exec.Command(os.Args[0], "oneshot")
-	cmd.Stdin = strings.NewReader(string(b))
-	cmd.Env = append(os.Environ(), "SIM_COLD=1") // no warm-up: the reference result in a cold process
-	out, err := cmd.Output()
+	var out []byte
+	var err error
+	fails := 0
+	for attempt := 0; attempt < 3; attempt++ {
+		cmd := exec.Command(os.Args[0], "oneshot")
+		cmd.Stdin = strings.NewReader(string(b))
+		cmd.Env = append(os.Environ(), "SIM_COLD=1") // no warm-up: the reference result in a cold process
+		out, err = cmd.Output()
+		if err == nil {
+			break
+		}
+		fails++
+	}
 	var r Result
 	if err != nil {
+		// the child died three times out of three: a property of the tree, not of the machine
 		r.Panic = "fresh process failed: " + err.Error()
 		r.PanicSig = "fresh-process-died"
 		return r
+	}
+	if fails > 0 {
+		fmt.Fprintln(os.Stderr, "worker: fresh process failed", fails, "time(s) and then succeeded: machine trouble (fork/memory), not a finding")
+		os.Exit(97)
 	}
 	if json.Unmarshal(out, &r) != nil {
 		fmt.Fprintln(os.Stderr, "worker: unparsable oneshot output")
